@@ -1,6 +1,7 @@
 import Drv.Util
 import Drv.Key
 import TCV.Model.Build
+import TCV.Model.BuildNM
 open Lean
 namespace Drv.Build
 open TCV TCV.Config TCV.Build
@@ -88,6 +89,14 @@ def taskJson (cfgNames : List Str) (t : Task2) : Json :=
         | .dflt v => Json.mkObj [("default", pvalJson v)]])).toArray),
     ("key", jstr t.key), ("obj", jnat t.objId), ("cfg", jnat t.cfgIx)]
 
+def taskNJson (t : TCV.BuildNM.TaskN) : Json :=
+  Json.mkObj [("full", jstr t.full), ("cid", jstr t.obj.cid), ("slug", jstr t.obj.slug), ("ns", optStr t.obj.ns),
+    ("params", Json.arr (t.obj.params.map (fun kv => Json.arr #[jstr kv.1, pvalJson kv.2])).toArray),
+    ("inputs", Json.arr (t.inputs.map (fun kv => Json.arr #[jstr kv.1, match kv.2 with
+        | .task f => Json.mkObj [("task", jstr f)]
+        | .dflt v => Json.mkObj [("default", pvalJson v)]])).toArray),
+    ("key", jstr t.obj.cfgName), ("obj", jnat t.obj.id)]
+
 def common (j : Json) : R (FS × CtxFS × Classes × (Char → Bool)) := do
   let fs ← (← pairs (← obj j "files")).mapM (fun (k, v) => do pure (chars k, ← fileOf v))
   let cfs ← (← pairs (← obj j "ctx_files")).mapM (fun (k, v) => do
@@ -110,6 +119,12 @@ def handle (j : Json) : R Json := do
     match build Drv.Key.sha32 pr fs cfs classes main ns (← optCtx j "ctx") [] 0 fuel with
     | .error e => pure (Json.mkObj [("error", Json.str (errName e))])
     | .ok c => pure (Json.mkObj [("ok", Json.arr (c.tasks.map (taskJson [])).toArray)])
+  | "build_nm" =>
+    let main := chars (← str j "main")
+    let ns := (opt j "ns").bind (fun x => x.getStr?.toOption) |>.map chars
+    match TCV.BuildNM.build fs cfs classes main ns (← optCtx j "ctx") [] 0 0 fuel with
+    | .error e => pure (Json.mkObj [("error", Json.str (errName e))])
+    | .ok c => pure (Json.mkObj [("ok", Json.arr (c.tasks.map taskNJson).toArray)])
   | "multi" =>
     let mains ← (← arr j "mains").toList.mapM (fun m => do
       pure (chars (← str m "main"), ← optCtx m "ctx"))
